@@ -22,6 +22,9 @@
 //     times a mid-level object directly as well, at times a private copy
 //     instead of the shared object), some set up before the goroutines start,
 //     the others created and set up by their own goroutine;
+//   - every root and every type object is created with or without
+//     jschema.KeysAreOptionalByDefault(), drawn per object (drawOptions);
+//     the documents include the example lacking exactly one key (dropOneKey);
 //   - every root is compiled for the first time and used by its own 1..4
 //     goroutines, all released together: random Check / Validate (example
 //     document of the sequential run and mutations of it) / Len / Example /
@@ -91,6 +94,7 @@ type tspec struct {
 	value string   // scalar leaves: a literal that belongs to the type ("" otherwise)
 	anon  bool     // its own text has or rule-sets / or shortcuts: it owns anonymous types
 	allOf bool
+	opt   bool // the object (shared or private copy) is created with jschema.KeysAreOptionalByDefault()
 
 	// stream "broken" (broken.go)
 	recipe  string   // how to write text down (a loop), for the replay description
@@ -114,6 +118,7 @@ type nadd struct {
 type nroot struct {
 	id    string
 	text  string
+	opt   bool // created with jschema.KeysAreOptionalByDefault(): a lenient root next to strict ones over the same type objects
 	rules []nrule
 	adds  []nadd
 	pre   bool // set up before the goroutines start
@@ -589,7 +594,7 @@ func (in *instance) build(t *tspec, out *[]string) *jschema.Schema {
 	for _, k := range t.kids {
 		kids = append(kids, in.build(k, out))
 	}
-	s := jschema.New(t.name, t.text)
+	s := jschema.New(t.name, t.text, c11.SchemaOptions(t.opt)...)
 	for _, rl := range t.rules {
 		e := in.rule(rl)
 		name := rl.name
@@ -612,7 +617,7 @@ func setupRoot(rt *nroot, sh *instance, r *rand.Rand) (*jschema.Schema, []string
 			runtime.Gosched()
 		}
 	}
-	s := jschema.New(rt.id, rt.text)
+	s := jschema.New(rt.id, rt.text, c11.SchemaOptions(rt.opt)...)
 	for _, rl := range rt.rules {
 		e := sh.rule(rl)
 		name := rl.name
@@ -649,9 +654,9 @@ func describeTypes(ts []*tspec) string {
 		for _, k := range t.kids {
 			walk(k)
 		}
-		d := fmt.Sprintf("%s := jschema.New(%q, %q)", t.name[1:], t.name, t.text)
+		d := fmt.Sprintf("%s := jschema.New(%q, %q%s)", t.name[1:], t.name, t.text, c11.OptText(t.opt))
 		if t.recipe != "" {
-			d = fmt.Sprintf("%s := jschema.New(%q, %s)", t.name[1:], t.name, t.recipe)
+			d = fmt.Sprintf("%s := jschema.New(%q, %s%s)", t.name[1:], t.name, t.recipe, c11.OptText(t.opt))
 		}
 		for _, rl := range t.rules {
 			d += fmt.Sprintf("; %s.AddRule(%q, %s)", t.name[1:], rl.name, rl.describe())
@@ -679,7 +684,7 @@ func (rl nrule) describe() string {
 }
 
 func (rt *nroot) describe() string {
-	d := fmt.Sprintf("%s := jschema.New(%q, %q)", rt.id, rt.id, rt.text)
+	d := fmt.Sprintf("%s := jschema.New(%q, %q%s)", rt.id, rt.id, rt.text, c11.OptText(rt.opt))
 	for _, rl := range rt.rules {
 		d += fmt.Sprintf("; %s.AddRule(%q, %s)", rt.id, rl.name, rl.describe())
 	}
@@ -720,7 +725,7 @@ func describeNested(f *forest, roots []*nroot) string {
 var fixedDocs = []string{`{}`, `[]`, `"abc"`, `{"a":`}
 
 // mutateDocs: the example of the sequential run and neighbours of it.
-func mutateDocs(r *rand.Rand, example string) []string {
+func mutateDocs(r *rand.Rand, example string, maxDropDocs int) []string {
 	docs := append([]string{}, fixedDocs...)
 	var v interface{}
 	dec := stdjson.NewDecoder(strings.NewReader(example))
@@ -799,13 +804,83 @@ func mutateDocs(r *rand.Rand, example string) []string {
 			docs = append(docs, string(out))
 		}
 	}
+	// the example LACKING exactly one key: every (object, key) of it is a candidate (keys of the root's own text, of
+	// the types, of objects nested in them); up to maxDropDocs of them, spread evenly over the document (no random choice)
+	drops := dropOneKey(v)
+	for i, n := 0, imin(len(drops), maxDropDocs); i < n; i++ {
+		if d := drops[i*len(drops)/n](); d != "" {
+			docs = append(docs, d)
+		}
+	}
 	return docs
+}
+
+func imin(a, b int) int {
+	if a < b {
+		return a
+	}
+	return b
+}
+
+// dropOneKey lists the documents that lack exactly one key (at any depth) of v, in document order of the sorted keys
+// (each as a function that writes the document down: a big example has hundreds of them and few are used).
+func dropOneKey(v interface{}) []func() string {
+	var out []func() string
+	var walk func(x interface{}, rebuild func(interface{}) interface{})
+	walk = func(x interface{}, rebuild func(interface{}) interface{}) {
+		switch t := x.(type) {
+		case map[string]interface{}:
+			keys := make([]string, 0, len(t))
+			for k := range t {
+				keys = append(keys, k)
+			}
+			sort.Strings(keys)
+			for _, drop := range keys {
+				drop := drop
+				out = append(out, func() string {
+					c := map[string]interface{}{}
+					for k, e := range t {
+						if k != drop {
+							c[k] = e
+						}
+					}
+					b, err := stdjson.Marshal(rebuild(c))
+					if err != nil {
+						return ""
+					}
+					return string(b)
+				})
+			}
+			for _, k := range keys {
+				k := k
+				walk(t[k], func(n interface{}) interface{} {
+					c := map[string]interface{}{}
+					for kk, e := range t {
+						c[kk] = e
+					}
+					c[k] = n
+					return rebuild(c)
+				})
+			}
+		case []interface{}:
+			for i := range t {
+				i := i
+				walk(t[i], func(n interface{}) interface{} {
+					c := append([]interface{}{}, t...)
+					c[i] = n
+					return rebuild(c)
+				})
+			}
+		}
+	}
+	walk(v, func(n interface{}) interface{} { return n })
+	return out
 }
 
 // ---------------------------------------------------------------- oracle
 
 // nestedOracle: rt over a fresh forest, sequentially.
-func nestedOracle(rt *nroot, r *rand.Rand) target {
+func nestedOracle(rt *nroot, r *rand.Rand, maxDropDocs int) target {
 	w := want{ops: map[string]string{}}
 	s, setupRes := setupRoot(rt, newInstance(), nil)
 	w.setup = setupRes
@@ -827,7 +902,7 @@ func nestedOracle(rt *nroot, r *rand.Rand) target {
 			}
 		}
 	}
-	docs := mutateDocs(r, example)
+	docs := mutateDocs(r, example, maxDropDocs)
 	for d := range docs {
 		res, _, _ := observe(s, opValidate, docs[d])
 		w.ops[opKey(opValidate, d)] = res
@@ -893,8 +968,28 @@ func genNested(round int, stream string) (*rand.Rand, *forest, []*nroot, string)
 		f = genForest(r, stream == "known")
 	}
 	roots := genRoots(r, f, stream == "broken")
+	drawOptions(vh.NewRand(seed+500), f, roots)
 	where := fmt.Sprintf("nested round %d (vh.NewRand(%d); replay: VERIF_SEED=%d vhrace c12-concurrent --child %s --round %d)", round, seed, vh.Seed(), stream, round)
 	return r, f, roots, where
+}
+
+// drawOptions: the option KeysAreOptionalByDefault() belongs to ONE schema
+// object.  Every root of the round draws it independently (probability 1/3: a
+// lenient root next to strict ones over the same type objects, and the
+// reverse), every type object of the forest as well (1/6); a private copy of a
+// type object and the objects of the sequential oracle are created with the
+// bit of the type.  The keys of the texts are unmarked (required in a strict
+// object) apart from the few `optional: true` ones, and the documents include
+// the example with one key left out (mutateDocs), so that a strict root has to
+// turn down what a lenient root over the same objects accepts.  The bits come
+// from a PRNG of their own.
+func drawOptions(ro *rand.Rand, f *forest, roots []*nroot) {
+	for _, t := range f.nodes {
+		t.opt = ro.Intn(6) == 0
+	}
+	for _, rt := range roots {
+		rt.opt = ro.Intn(3) == 0
+	}
 }
 
 func nestedMarkID(round int) string { return fmt.Sprintf("nested-round-%d", round) }
@@ -936,7 +1031,12 @@ func prepareNestedRound(col *collector, round int, stream string) *prepared {
 	// sequential oracle, fresh objects per root
 	p.targets = make([]target, len(roots))
 	for i, rt := range roots {
-		p.targets[i] = nestedOracle(rt, r)
+		// documents lacking one key of the example: 6; 2 in stream broken (its examples have hundreds of members)
+		maxDropDocs := 6
+		if stream == "broken" {
+			maxDropDocs = 2
+		}
+		p.targets[i] = nestedOracle(rt, r, maxDropDocs)
 		p.targets[i].setup = p.scenario + " ||| this root: " + rt.id
 		// stream broken: the roots' FIRST compiles are what has to overlap
 		p.targets[i].firstCompile = stream == "broken"
@@ -1096,6 +1196,25 @@ func runNestedRound(col *collector, p *prepared) {
 	col.res.Stats[fmt.Sprintf("nested_types_%02d", len(f.nodes))]++
 	if deepShared {
 		col.res.Stats["nested_shared_object_owning_a_type_that_owns_types"]++
+	}
+	// a strict and a lenient root over one shared type object
+	strictBy, lenientBy := map[*tspec]bool{}, map[*tspec]bool{}
+	for _, i := range live {
+		for _, a := range roots[i].adds {
+			if !a.private {
+				if roots[i].opt {
+					lenientBy[a.t] = true
+				} else {
+					strictBy[a.t] = true
+				}
+			}
+		}
+	}
+	for t := range strictBy {
+		if lenientBy[t] {
+			col.res.Stats["opt_nested_rounds_strict_and_lenient_root_over_one_type_object"]++
+			break
+		}
 	}
 	col.mu.Unlock()
 }
